@@ -91,7 +91,8 @@ def check(tier, seed):
         env["MIRIFLAGS"] = "-Zmiri-ignore-leaks" if False else ""
 
         def one(k):
-            a = ["run", "--seed", str(seed), "--from", str(k * 10_000_000), "--to", str((k + 1) * 10_000_000), "--distinct-shapes", str(per), "--out", "-"]
+            lo = 2_000_000_000 + k * 10_000_000  # disjoint from the sampled phase's run indices
+            a = ["run", "--seed", str(seed), "--from", str(lo), "--to", str(lo + 10_000_000), "--distinct-shapes", str(per), "--out", "-"]
             return run_capture(cmd + a, cwd=cwd, env=env)
         # build once (first invocation) before fanning out, so the processes do not race on the target dir
         results = [one(0)]
@@ -108,7 +109,7 @@ def check(tier, seed):
                 # Miri itself reported undefined behaviour (or could not build): that is a finding about
                 # the code under test only if it is UB; build errors are harness errors.
                 if "Undefined Behavior" in err or "error: memory leaked" in err or "memory leaked" in err:
-                    p = save_replay("C12-miri-ub-%d-%d.txt" % (seed, k), "# Miri report while running: write-sim run --seed %d --from %d --distinct-shapes %d\n%s" % (seed, k * 10_000_000, per, err[-8000:]))
+                    p = save_replay("C12-miri-ub-%d-%d.txt" % (seed, k), "# Miri report while running: write-sim run --seed %d --from %d --distinct-shapes %d\n%s" % (seed, 2_000_000_000 + k * 10_000_000, per, err[-8000:]))
                     violations.append("VIOLATION property=C12 replay=%s oracle=MIRI-UB seed=%d part=%d" % (p, seed, k))
                 else:
                     raise HarnessError("miri run failed (rc=%s)\n%s" % (rc, err[-4000:]))
